@@ -52,11 +52,15 @@ def case_variant_prefix(head, rng):
     return "#".join(case_variant(p, rng) if re.fullmatch(r"[A-Za-z_]+", p) else p for p in head.split("#"))
 
 
-def spell(toks, rng=None, trivia=False, case=False, drop_endif_semi=False):
+GLUE_CHARS = set("()[],;")
+
+
+def spell(toks, rng=None, trivia=False, case=False, drop_endif_semi=False, compact=False):
     """Returns (text, spans): spans[i] = (start, end) byte offsets of token i (None if the token is dropped).
     Canonical spelling: exactly one blank between two tokens unless the second is marked glued.
     trivia=True replaces each of those blanks by a random member of TRIVIA (C08: 'replacing the whitespace
-    between two tokens by any other mix of blanks, tabs, line breaks and comments')."""
+    between two tokens by any other mix of blanks, tabs, line breaks and comments').
+    compact=True writes no white space next to brackets, commas and semicolons ('a[1]:=f(x,y);')."""
     parts = []
     spans = []
     pos = 0
@@ -70,6 +74,8 @@ def spell(toks, rng=None, trivia=False, case=False, drop_endif_semi=False):
         if i in skip:
             spans.append(None)
             continue
+        if compact and not first and parts and (parts[-1][-1:] in GLUE_CHARS or text[:1] in GLUE_CHARS or text == ".." or parts[-1] == ".."):
+            glue = True       # compact spelling: no white space next to a bracket, comma or semicolon
         if not first and not glue:
             sep = rng.choice(TRIVIA) if (trivia and rng is not None) else " "
             parts.append(sep)
